@@ -11,6 +11,7 @@ import SwV.Gen.C18
 import SwV.Spec.C18
 import SwV.Lemmas.C18
 import SwV.Lemmas.C18Rename
+import SwV.Lemmas.C18Final
 
 namespace SwV.Props.C18
 open SwV.Model.C18 SwV.Spec.C18 SwV.Lemmas.C18
@@ -453,6 +454,80 @@ theorem rename_touches_only_source_and_target (s : St) (src dst : RPath) (x : RP
   split
   · rfl
   · exact moveEntry_frame _ s src _ dst x ⟨h1, h2, h3⟩
+
+/-! ### the final "delete old entry" of a move destroys nothing else
+
+moveSelfEntry ends with `DeleteEntryMetaAndData(oldPath, isRecursive = false, …)`. The model mirrors it
+(`deleteEntry s2 old false false`), and that is what keeps a rename from losing entries that were moved back under the
+source (rename /a/b /a with a non-empty /a/b/b: the children of /a/b/b land in /a/b): the delete refuses, the rename
+reports an error, every entry is still stored once. Stated for every move of the model: -/
+
+/-- when a move of `old ≠ new` reports success, its last step removed exactly ONE stored entry, the path `old`, from the
+    state reached after the target was created and the listed children were moved (`beforeFinalDelete`); if that entry
+    was a directory it had no children left. Nothing below the source is ever destroyed by the move itself. -/
+theorem rename_final_delete_removes_only_source (f : Nat) (s : St) (n : String) (par new : RPath) (e : Entry) (s3 : St)
+    (q : List Nat) (hne : n :: par ≠ new) (h : moveEntry (f + 1) s (n :: par) e new = (s3, Res.ok, q)) :
+    (∃ e', find (beforeFinalDelete f s (n :: par) e new) (n :: par) = some e' ∧
+      (e'.isDir = true → children (beforeFinalDelete f s (n :: par) e new) (n :: par) = [])) ∧
+    ∀ x, x ∈ s3.ents ↔ x ∈ (beforeFinalDelete f s (n :: par) e new).ents ∧ x.1 ≠ n :: par :=
+  moveEntry_ok_final_delete f s n par new e s3 q hne h
+
+/-- non-vacuity: a successful move of a directory with a child -/
+example : ∃ (s s3 : St) (e : Entry) (q : List Nat), ["a"] ≠ ["d"] ∧ moveEntry 3 s ["a"] e ["d"] = (s3, Res.ok, q) :=
+  ⟨run {} [.create ["c", "a"] { isDir := false, tag := 1, chunks := [1], hl := 0, cnt := 0 } false], _, witnessDir, _,
+    by decide, rfl⟩
+
+/-! ### the judge's two classes for a rename onto an ancestor
+
+`rename/onto-ancestor-loses-entries` (recorded finding) is about images that fall back ONTO the source subtree
+(`collidesWithSource`): the child named like the source, deleted as "the old entry", and names colliding below it. A moved
+entry whose image is a fresh path and that is gone all the same is judged `rename/more-entries-lost-than-known`
+(`lostBeyondKnown`). The model never produces the second class on the scenario that separates them, and does produce the
+first on the recorded witnesses: -/
+
+def fileE (t : Nat) (c : List Nat) : Entry := { isDir := false, tag := t, chunks := c, hl := 0, cnt := 0 }
+
+/-- /a/b → /a where /a/b holds a non-empty folder also named b: the children of /a/b/b land back under the source, the
+    final non-recursive delete refuses, the rename reports an error, both files are still stored (each once), and the
+    judge has no objection -/
+theorem rename_onto_parent_refused_keeps_all_witness :
+    let s := run {} [.create ["c", "b", "b", "a"] (fileE 2 [7]) false, .create ["x", "b", "a"] (fileE 3 [8]) false]
+    let r := renameEntry s ["b", "a"] ["a"]
+    r.2.1 = Res.err ∧ r.1.ents.map (·.1) = [["x", "a"], ["c", "b", "a"], ["b", "a"], ["a"]] ∧
+    judgeRename s.ents r.1.ents ["b", "a"] ["a"] r.2.1 = [] := by decide
+
+/-- the same rename reporting success with /a/b removed recursively (what a recursive final delete does): /a/b/b/c, whose
+    image /a/b/c is a path the source never held, is lost beyond the recorded finding — its own class -/
+theorem more_lost_than_known_judged_witness :
+    let s := run {} [.create ["c", "b", "b", "a"] (fileE 2 [7]) false, .create ["x", "b", "a"] (fileE 3 [8]) false]
+    let post : List (RPath × Entry) := [(["a"], { witnessDir with tag := 2 }), (["x", "a"], fileE 3 [8])]
+    (lostBeyondKnown s.ents post ["b", "a"] ["a"]).map (·.1) = [["c", "b", "b", "a"]] ∧
+    judgeRename s.ents post ["b", "a"] ["a"] Res.ok =
+      ["rename/onto-ancestor-loses-entries", "rename/more-entries-lost-than-known"] := by decide
+
+/-- the recorded witnesses (corpus/C18/witnesses.ops, cases 4 and 6) lose only colliding images: the known class alone -/
+theorem known_loss_is_not_beyond_known_witness :
+    (let s := run {} [.create ["c", "c", "b"] witnessDir false]
+     let r := renameEntry s ["c", "b"] ["b"]
+     judgeRename s.ents r.1.ents ["c", "b"] ["b"] r.2.1 = ["rename/onto-ancestor-loses-entries"]) ∧
+    (let s := run {} [.create ["c", "b", "b", "a"] (fileE 2 [1]) false, .create ["c", "b", "a"] (fileE 3 [2]) false]
+     let r := renameEntry s ["b", "a"] ["a"]
+     judgeRename s.ents r.1.ents ["b", "a"] ["a"] r.2.1 = ["rename/onto-ancestor-loses-entries"]) := by decide
+
+/-- the new class is raised for renames onto an ancestor only: under the hypotheses of `rename_dir_is_specRename_partial`
+    (`¬ dst <:+ src`) no outcome — in particular none of the model — is judged `rename/more-entries-lost-than-known` -/
+theorem more_lost_class_only_onto_ancestor (pre post : List (RPath × Entry)) (src dst : RPath) (res : Res)
+    (h2 : ¬ dst <:+ src) : "rename/more-entries-lost-than-known" ∉ judgeRename pre post src dst res := by
+  have hu : under dst src = false := by
+    cases hb : under dst src with
+    | false => rfl
+    | true => exact absurd (List.isSuffixOf_iff_suffix.mp hb) h2
+  unfold judgeRename
+  simp only [hu]
+  repeat' split
+  all_goals simp_all
+
+example : ¬ (["d"] : RPath) <:+ ["a"] := by decide
 
 /-! ### tie to the source (T1): the Go functions this model mirrors are the ones it was written against -/
 
